@@ -106,6 +106,20 @@ Theorem C12_method_raises : forall (V : Type) (validate : json -> option V) st b
 Proof. exact method_raises. Qed.
 Print Assumptions C12_method_raises.
 
+(* str(exception): the multi-error's text lists the message of every error of the response, in order,
+   joined by "; " (None when some message is not a string: str() raises TypeError); the HTTP error's text
+   carries the status *)
+Theorem C12_multi_str_lists_every_message : forall st kv e l, (200 <= st <= 299)%Z ->
+  jlookup "errors" kv = Some (JArr (e :: l)) -> forallb spec_error (e :: l) = true ->
+  outcome_str (get_data st (Some (JObj kv))) = join_opt (map msg_of (e :: l)).
+Proof. exact multi_str. Qed.
+Print Assumptions C12_multi_str_lists_every_message.
+
+Theorem C12_http_str_carries_status : forall st b, (st < 200 \/ 299 < st)%Z ->
+  outcome_str (get_data st b) = Some (http_error_text ++ Base.Sexp.z_to_string st)%string.
+Proof. exact http_str. Qed.
+Print Assumptions C12_http_str_carries_status.
+
 (* ---- non-vacuity / behaviour pinned on concrete inputs ---- *)
 Definition err1 := JObj [("message", JStr "boom"); ("path", JArr [JStr "a"; JInt 0])].
 Example C12_examples :
